@@ -2957,6 +2957,13 @@ class Interp:
                 results.append((value, s))
                 continue
             implied = self._implied(key, positive, s) if key is not None else None
+            if implied is None and key is not None and key[0] == 'truth' and \
+                    isinstance(expr, ast.Name) and \
+                    s.facts.get(('isnone', expr.id)) is False and \
+                    self._exception_object(expr, fr):
+                # an exception object that is not None is true (`x if x else y` for
+                # `x or y` after `x is not None`): BaseException has no __bool__/__len__
+                implied = positive
             if implied is None and key is not None and key[0] == 'is':
                 implied = self._identity_impossible(key, positive, s, fr)
             if implied is not None:
@@ -2977,6 +2984,34 @@ class Interp:
             results.append((True, s))
             results.append((False, other))
         return results
+
+    def _exception_object(self, expr, fr: DynFrame) -> bool:
+        """the static type of ``expr`` is instances of exception classes only, none of
+        which brings a ``__bool__``/``__len__`` of the package"""
+        try:
+            terms = self.etype(expr, fr)
+        except Exception:
+            return False
+        classes = []
+        for term in terms:
+            if term[0] == 'none':
+                continue
+            if term[0] == 'inst':
+                classes.append(term[1])
+            elif term[0] == 'ext' and not term[1].startswith('result-of'):
+                classes.append('ext:' + term[1])
+            else:
+                return False
+        if not classes:
+            return False
+        for cls in classes:
+            if not self.p.is_subclass(cls, 'ext:BaseException'):
+                return False
+            if not cls.startswith('ext:') and any(
+                    self.p.find_method(cls, name) is not None
+                    for name in ('__bool__', '__len__')):
+                return False
+        return True
 
     def _never_none(self, expr, fr: DynFrame) -> bool:
         """``type(x)`` and the construction of an instance of a class of the package are
